@@ -24,7 +24,7 @@ pub const EXT_VARIANTS: [&str; 3] = [
 ];
 
 /// (name, content). `%` in a content is replaced by nothing; contents are complete files.
-pub const SNIPPETS: [(&str, &str); 21] = [
+pub const SNIPPETS: [(&str, &str); 22] = [
     ("avatar", "import { iso } from '@iso';\nexport const Avatar = iso(`\n  field User.Avatar @component {\n    name\n    age\n  }\n`)(function AvatarComponent({ data }) { return null; });\n"),
     ("avatar2", "import { iso } from '@iso';\nexport const Avatar = iso(`\n  field User.Avatar @component {\n    name\n  }\n`)(function AvatarComponent({ data }) { return null; });\n"),
     ("home", "import { iso } from '@iso';\nexport const Home = iso(`\n  field Query.Home @component {\n    me {\n      name\n      Avatar\n    }\n    pets {\n      id\n      name\n    }\n  }\n`)(function HomeComponent({ data }) { return null; });\nconst e = iso(`entrypoint Query.Home`);\n"),
@@ -49,6 +49,8 @@ pub const SNIPPETS: [(&str, &str); 21] = [
     ("home_noentry", "import { iso } from '@iso';\nexport const Home = iso(`\n  field Query.Home @component {\n    me {\n      name\n      Avatar\n    }\n    pets {\n      id\n      name\n    }\n  }\n`)(function HomeComponent({ data }) { return null; });\n"),
     ("petlist_noentry", "import { iso } from '@iso';\nexport const PetList = iso(`\n  field Query.PetList {\n    pets {\n      id\n      Card\n    }\n  }\n`)(({ data }) => data.pets);\n"),
     ("entry_home", "import { iso } from '@iso';\nconst e = iso(`entrypoint Query.Home`);\n"),
+    // several unused variables in one diagnostic (the order of the names inside one message)
+    ("unused4", "import { iso } from '@iso';\nexport const Unused4 = iso(`\n  field Query.Unused4($first: ID!, $second: ID!, $third: ID!, $fourth: ID!) @component {\n    me {\n      name\n    }\n  }\n`)(function Unused4Component({ data }) { return null; });\n"),
 ];
 
 /// Files of the world. `source` = has an extension the batch compiler reads.
